@@ -568,3 +568,64 @@ Definition mx_exec_state (r : mx_cmdres) (plugin_exit : Z) : Z :=
   | MxCmdThrow _ => mx_exit_to_state 3
   | _ => mx_exit_to_state plugin_exit
   end.
+
+(* ------------------------------------------------------------------ the timeout state machine *)
+
+(* Process::DoEvents (process.cpp 1039-1190, POSIX branch) as a step function.  Real time enters only through
+   two facts about the instant of the call: "the soft deadline start + timeout has passed" and "the hard
+   deadline start + 1.1 * timeout has passed"; what read() on the pipe returned and, when the call ends the
+   process, the wait status are inputs as well. *)
+Inductive mx_wait :=
+| MxWaitExit (code : Z)                       (* WIFEXITED *)
+| MxWaitSignal (signame : mx_bytes)           (* WIFSIGNALED; "<number> (<strsignal>)" *)
+| MxWaitFail.                                 (* waitpid failed / could not kill *)
+
+Inductive mx_read :=
+| MxReadAgain (d : mx_bytes)                  (* data, then EAGAIN: DoEvents returns true *)
+| MxReadEof (d : mx_bytes).                   (* data, then end of file *)
+
+Record mx_proc := { mx_pr_sent_term : bool;   (* m_SentSigterm *)
+                    mx_pr_out : mx_bytes }.   (* m_OutputStream *)
+
+Record mx_pev := { mx_ev_past_soft : bool; mx_ev_past_hard : bool; mx_ev_read : mx_read; mx_ev_wait : mx_wait }.
+
+Definition mx_proc_init : mx_proc := {| mx_pr_sent_term := false; mx_pr_out := [] |}.
+
+(* ProcessResult: ExitStatus, Output *)
+Definition mx_proc_finish (sent : bool) (out : mx_bytes) (w : mx_wait) : Z * mx_bytes :=
+  match w with
+  | MxWaitFail => (128%Z, out)
+  | MxWaitExit c => (if sent then 128%Z else c, out)
+  | MxWaitSignal n => (128%Z, out ++ mx_s_sig1 ++ n ++ mx_s_sig2)
+  end.
+
+Definition mx_do_events (p : mx_proc) (e : mx_pev) : mx_proc + Z * mx_bytes :=
+  (* deadline < now && !m_SentSigterm: marker, SIGTERM to the process *)
+  let fire := mx_ev_past_soft e && negb (mx_pr_sent_term p) in
+  let sent := mx_pr_sent_term p || fire in
+  let out := if fire then mx_pr_out p ++ mx_s_timeout else mx_pr_out p in
+  (* GetNextTimeout() now answers 1.1 * timeout iff SIGTERM has been sent: SIGKILL to the process group *)
+  let is_timeout := if sent then mx_ev_past_hard e else mx_ev_past_soft e in
+  if is_timeout then inr (mx_proc_finish sent out (mx_ev_wait e))
+  else match mx_ev_read e with
+       | MxReadAgain d => inl {| mx_pr_sent_term := sent; mx_pr_out := out ++ d |}
+       | MxReadEof d => inr (mx_proc_finish sent (out ++ d) (mx_ev_wait e))
+       end.
+
+Fixpoint mx_proc_run (p : mx_proc) (evs : list mx_pev) : option (Z * mx_bytes) :=
+  match evs with
+  | [] => None
+  | e :: r => match mx_do_events p e with
+              | inl p' => mx_proc_run p' r
+              | inr res => Some res
+              end
+  end.
+
+(* what the check result shows of an execution whose process went through [evs] *)
+Definition mx_timeout_observe (evs : list mx_pev) : option (Z * Z * bool) :=
+  match mx_proc_run mx_proc_init evs with
+  | Some (ex, out) =>
+      let c := mx_finish ex out in
+      Some (mx_cr_state c, mx_cr_exit c, mx_contains mx_s_timeout (mx_cr_output c))
+  | None => None
+  end.
